@@ -45,4 +45,4 @@ Every shell call needs: `export GOFLAGS=-mod=mod GOPROXY=off PKG_CONFIG_PATH=/tm
 2. The demonstration: a new `*_test.go` file (or small program) — keep a copy in /tmp/seedout/{name}/ with a note of the path it must be placed at in the tree. It must FAIL (or exit non-zero) with patch.diff applied and PASS without it, deterministically (if it needs an interleaving, force it with hooks available in the code, channels, or repetition that makes it reliable; a crash can be simulated by copying files / reopening / truncating).
 3. `meta.json`: {{"property": "{pid}", "summary": "...one paragraph: what was changed and why it breaks the property...", "needs_to_manifest": "...the specific interleaving / crash point / sequence / input...", "files_changed": [...], "demo_path_in_tree": "...", "demo_cmd": "...exact command to run the demo from the worktree root...", "existing_tests_cmd": "...what you ran to confirm existing tests still pass...", "results": {{"demo_with_patch": "FAIL ...", "demo_without_patch": "PASS ...", "existing_tests_with_patch": "PASS ..."}}}}
 
-Verify all three results yourself before finishing (run the demo with the patch, then `git stash`/revert the non-test change and run it again, then restore). Leave the worktree with your change AND the demo applied at the end. Your final message should be a 5-line summary: what you changed, what it needs to manifest, and the verified results. If after honest effort you cannot find a change that satisfies everything, say so plainly and explain what you tried.""".replace("HINTS.get(variant, '')", ""))
+Verify all three results yourself before finishing (run the demo with the patch, then revert ONLY the non-test change with `git diff -- <files> > /tmp/seedout/<name>/p.diff; git apply -R /tmp/seedout/<name>/p.diff`, run it again, then `git apply` it back — NEVER use `git stash` (the stash is shared by all worktrees of the repository and other agents are working concurrently)). Leave the worktree with your change AND the demo applied at the end. Your final message should be a 5-line summary: what you changed, what it needs to manifest, and the verified results. If after honest effort you cannot find a change that satisfies everything, say so plainly and explain what you tried.""".replace("HINTS.get(variant, '')", ""))
